@@ -161,6 +161,8 @@ func c07MsgShape(msg string) string { return shapeIdentRe.ReplaceAllString(msg, 
 
 var c07ArgNameMsgRe = regexp.MustCompile(`^validation: \S+ is not an argument to \S+$`)
 
+var c07DupOpMsgRe = regexp.MustCompile(`^parse error: duplicate '\S*' operation`)
+
 var quotedTokenRe = regexp.MustCompile(`'([A-Za-z0-9_]+)'`)
 
 // c07LookaheadExplains is the K-C07-lookahead defect model: parse-time locations are computed as
@@ -175,6 +177,11 @@ func c07LookaheadExplains(msg string, line, col int, docLines []string) bool {
 	// the finding is identified by its call sites: the scanner's own "parse error" sites and the argument-name check,
 	// the only ones that report a position taken after the look-ahead. Any other message with such a position is new.
 	if !strings.HasPrefix(msg, "parse error: ") && !c07ArgNameMsgRe.MatchString(msg) {
+		return false
+	}
+	// ... except the parse errors that are located at a NODE whose position was taken when the node started (an operation):
+	// those sites are right on the unchanged tree and not part of the finding
+	if c07DupOpMsgRe.MatchString(msg) {
 		return false
 	}
 	prev := strings.TrimRight(docLines[line-2], "\r")
@@ -461,6 +468,15 @@ func runC07(c *run.Ctx) {
 				}
 			}
 		}
+		// two operations of one name: the error is located at the second operation (its name may end its line)
+		if len(ec.DC.Doc.Ops) > 0 && !ec.DC.Doc.Ops[0].Shorthand && ec.DC.Doc.Ops[0].Name != "" {
+			cp := *ec.DC.Doc.Ops[0]
+			ec.DC.Doc.Ops = append(ec.DC.Doc.Ops, &cp)
+			t2 := ec.DC.Doc.Print(lay)
+			vs = append(vs, variant{tag: "duplicate-operation", text: t2, op: ec.DC.OpName, vars: ec.DC.Vars, preExec: true})
+			ec.DC.Doc.Ops = ec.DC.Doc.Ops[:len(ec.DC.Doc.Ops)-1]
+			ec.DC.Doc.Print(lay)
+		}
 		// a spread of a fragment that is not defined (its name may be the last thing on its line)
 		for _, l := range ec.DC.Doc.AllSelLists() {
 			done := false
@@ -486,6 +502,30 @@ func runC07(c *run.Ctx) {
 			cl := clean.Calls[1+r.Intn(len(clean.Calls)-1)]
 			plan[cl.Key] = model.Fault{Kind: "foreign", N: r.Intn(3)}
 			vs = append(vs, variant{tag: "resolver-error-with-foreign-position", text: text, op: ec.DC.OpName, vars: ec.DC.Vars, plan: plan, lines: lines})
+		}
+		// the same requests once more with blank lines and indentation in front: every position moves with the text (a server
+		// that remembered the previous document must not answer with ITS positions)
+		for _, v0 := range append([]variant{}, vs...) {
+			if v0.tag != "unknown-field" && v0.tag != "resolver-failures" && v0.tag != "bad-variables" && v0.tag != "duplicate-operation" {
+				continue
+			}
+			sh := v0
+			sh.tag += "-shifted-down"
+			nl := "\n"
+			if lay.CRLF {
+				nl = "\r\n"
+			}
+			sh.text = nl + " " + nl + nl + v0.text
+			if v0.lines != nil {
+				sh.lines = map[string]map[int]bool{}
+				for k, ls := range v0.lines {
+					sh.lines[k] = map[int]bool{}
+					for l := range ls {
+						sh.lines[k][l+3] = true
+					}
+				}
+			}
+			vs = append(vs, v0, sh) // the original right before its shifted copy
 		}
 		// corrupted text
 		for m := 0; m < 2; m++ {
